@@ -47,6 +47,8 @@ const PRELUDES: &[&str] = &[
     "",
     "v=1; export e=2; f() { p f; }; alias a=b; set -- p1 p2; trap 'p t' USR1; trap '' USR2; umask 027; cd /tmp/w; exec 3<e",
     "v=1; readonly q=3; f() { p f; }; alias a=b; set -u -C; set -- p1; trap 'p t' USR1 INT; trap '' QUIT; exec 3</tmp/w/e 4>>/tmp/w/e",
+    // traps that were set and reset again (the trap table has entries with the default action)
+    "v=1; trap - INT; trap 'p t' QUIT USR1; trap - QUIT; trap '' TERM; trap - TERM; trap -p >/dev/null",
 ];
 
 #[derive(Clone, Copy, Debug, PartialEq, Eq)]
